@@ -1,4 +1,5 @@
 """C06 - ChaCha20-Poly1305 equals RFC 8439; decrypt inverts encrypt; one-shot or streamed."""
+import struct
 from ..codec import Rng, expand, spec_len
 from ..aeadmodel import check_aead, tag_of, stream
 from .. import oracle as o
@@ -7,7 +8,7 @@ ID = 'C06'
 RULE = ('one record per one-shot encrypt / decrypt or per incremental history (add_data*, to_encryption|to_decryption, encrypt|encrypt_mut|'
         'decrypt|decrypt_mut*, finalize); ciphertext, tag, plaintext and verdict must equal the RFC 8439 composition; AAD and data lengths '
         'from {0,1,15,16,17,31,32,33,63,64,65}^2 plus random; key lengths 16/32; rounds 20 (8,12 via the generic contexts); partitions: whole, '
-        'bytewise, random (mixing in-place and buffer-to-buffer); distinct = (op, rounds, keylen, aad length, data length, partition shape)')
+        'bytewise, random (mixing in-place and buffer-to-buffer); ciphertexts solved so that the Poly1305 accumulator hits extreme limb / carry patterns; AAD of 2^32+5 bytes; distinct = (op, rounds, keylen, aad length, data length, partition shape)')
 ASSUMPTIONS = ['ChaCha20, Poly1305 models of C03/C05; composition pinned by RFC 8439 2.8.2']
 FLOORS = {'evaluations': 2000, 'distinct': 1500}
 LENS = [0, 1, 15, 16, 17, 31, 32, 33, 63, 64, 65]
@@ -58,8 +59,34 @@ def gen(tier, seed):
             yield 'aead_dec %d %s %s %s %s %s' % (rounds, key.hex(), nonce.hex(), aad.hex() or '-', ct.hex() or '-', tag.hex())
             yield 'aead_inc %d %s %s %s E %s fin' % (rounds, key.hex(), nonce.hex(), ' '.join(partition(rng, aad, ['a'], 'random')), ' '.join(partition(rng, pt, ['e', 'em'], 'random')))
             yield 'aead_inc %d %s %s %s D %s fin.%s' % (rounds, key.hex(), nonce.hex(), ' '.join(partition(rng, aad, ['a'], 'random')), ' '.join(partition(rng, ct, ['d', 'dm'], 'random')), tag.hex())
+    # directed Poly1305 accumulator states inside the AEAD: the ciphertext's last block is solved so that the accumulator (before
+    # "+ s") lands on extreme limb patterns / carry-rippling word sums; submitted through decrypt (must accept) and encrypt
+    from ..polytargets import accumulator_targets, solve_last_block, absorb
+    CL = 0x0ffffffc0ffffffc0ffffffc0fffffff
+    for _ in range(40 if thorough else 8):
+        kl = rng.choice([16, 32]); key, nonce = rng.bytes(kl), rng.bytes(12)
+        otk = o.chacha_ietf_block(key, nonce, 0)[:32]
+        r = int.from_bytes(otk[:16], 'little') & CL; sv = int.from_bytes(otk[16:], 'little')
+        if r == 0:
+            continue
+        for T in accumulator_targets(rng, r, sv, 60 if thorough else 30):
+            for _try in range(12):
+                aad = rng.bytes(rng.choice([0, 5, 16, 20]))
+                pre = rng.bytes(16 * rng.rng(0, 2))
+                acc = absorb(r, 0, aad + o.pad16(aad))
+                acc = absorb(r, acc, pre)
+                lenblk = int.from_bytes(struct.pack('<QQ', len(aad), len(pre) + 16) + b'\x01', 'little')
+                last = solve_last_block(r, acc, T, after=(lenblk,))
+                if last is None:
+                    continue
+                ct = pre + last
+                tag = tag_of(20, key, nonce, aad, ct)
+                assert (int.from_bytes(tag, 'little') - sv) % (1 << 128) == T % (1 << 128)
+                yield 'aead_dec 20 %s %s %s %s %s' % (key.hex(), nonce.hex(), aad.hex() or '-', ct.hex(), tag.hex())
+                yield 'aead_enc 20 %s %s %s %s' % (key.hex(), nonce.hex(), aad.hex() or '-', stream(20, key, nonce, ct).hex())
+                yield 'aead_inc 20 %s %s a.%s D dm.%s fin.%s' % (key.hex(), nonce.hex(), aad.hex() or '-', ct.hex(), tag.hex())
+                break
     # associated data longer than 2^32 bytes (the 64-bit length trailer): zeros fed in chunks, oracle by closed form
-    import struct
     for n in ([(1 << 32) + 5] if not thorough else [(1 << 32) + 5, (1 << 32), (1 << 33) + 17]):
         key, nonce = rng.bytes(32), rng.bytes(12)
         pt = rng.bytes(37)
